@@ -335,6 +335,19 @@ def run_hl(case):
                         pc.set_landing_height(st_['h'])
                         model['lh'] = st_['h']
                         continue
+                    elif k == 'relaunch':
+                        # land (possibly on something: landing height above the floor) and take off again
+                        pc.land()
+                        model['pos'][2] = model['lh']
+                        got = pc.get_position()
+                        if any(abs(got[j] - model['pos'][j]) > 1e-9 for j in range(3)):
+                            pos_mismatch.append((i, got, tuple(model['pos'])))
+                        pc.take_off()
+                        model['pos'][2] = model['dh']
+                        got = pc.get_position()
+                        if any(abs(got[j] - model['pos'][j]) > 1e-9 for j in range(3)):
+                            pos_mismatch.append((i, got, tuple(model['pos'])))
+                        continue
                     dist = math.sqrt(sum((tgt[j] - model['pos'][j]) ** 2 for j in range(3)))
                     if dist > 0:
                         expected_gotos.append((tuple(tgt), dist / vel))
@@ -450,8 +463,10 @@ def mc_case(draw):
 
 @st.composite
 def _hl_step(draw):
-    k = draw(st.sampled_from(['left', 'right', 'forward', 'back', 'up', 'down', 'down', 'move', 'goto', 'goto', 'set_v', 'set_h', 'set_lh']))
+    k = draw(st.sampled_from(['left', 'right', 'forward', 'back', 'up', 'down', 'down', 'move', 'goto', 'goto', 'set_v', 'set_h', 'set_lh', 'relaunch']))
     stp = {'op': k}
+    if k == 'relaunch':
+        return stp
     v = draw(st.one_of(st.none(), _v))
     if k in ('left', 'right', 'forward', 'back', 'up', 'down'):
         stp.update(d=draw(_d), v=v)
@@ -469,7 +484,8 @@ def _hl_step(draw):
 @st.composite
 def hl_case(draw):
     steps = draw(st.lists(_hl_step(), max_size=12))
-    return {'start': [draw(_comp), draw(_comp), 0.0], 'dv': draw(st.sampled_from([0.5, 0.2, 1.0])), 'dh': draw(st.sampled_from([0.5, 1.0, 0.3])),
+    return {'start': [draw(_comp), draw(_comp), draw(st.sampled_from([0.0, 0.0, 0.0, 0.3, 1.0]))], 'dv': draw(st.sampled_from([0.5, 0.2, 1.0])),
+            'dh': draw(st.sampled_from([0.5, 1.0, 0.3])),
             'lh': draw(st.sampled_from([0.0, 0.0, 0.1, 0.4])), 'context': draw(st.booleans()), 'steps': steps,
             'raise_at': draw(st.one_of(st.none(), st.none(), st.integers(0, len(steps)))), 'schedule': draw(_sched)}
 
